@@ -194,6 +194,14 @@ def body_cli(case, rec):
                     classes.add("all_haplotigs_file")
                 outs.extend([n, [r[:5] if r[0] == "F" else r for r in rows]] for n, rows in reader(f.read_text())[1])
         try:
+            api = remap.run_api(case)
+            if any(len({s_.name for s_ in a.scaffolds}) != len(list(a.scaffolds)) for a in api.assemblies.values()):
+                # two scaffolds of one name in one output file (KF-C10-1) are read back as one object: not judged from files
+                rec.note(case, False, classes | {"duplicate_names_in_an_output_file_not_judged"})
+                return
+        except Exception:  # noqa: BLE001
+            pass
+        try:
             oracle(case, outs, True, classes)
         finally:
             rec.note(case, bool(classes & {"junction_between_non_neighbours", "all_haplotigs_file"}), classes)
